@@ -49,9 +49,12 @@ class C10(Prop):
             "be identical. (b) isolation: two environments in one process (two chain environments rolling at different "
             "dates, or a chain environment and a spot one), their reset/step calls interleaved by a random schedule: "
             "each must produce exactly its solo trace. The interleaved schedule is also run through the model (named "
-            "environments sharing one contract clock). Non-trivial = a chain environment interleaved with another "
+            "environments sharing one contract clock). (c) a fifth of the single-environment cases go through env.backtest(policy) "
+            "with a state that records its history: the returned track record (entries and state history) must not change "
+            "when a later backtest / abandoned episode runs on the same environment, and must equal a fresh environment's. "
+            "Non-trivial = a chain environment interleaved with another "
             "environment, or an episode abandoned / ended by an error before the replay; distinct = distinct cases")
-    nontrivial_tags = {"chain-interleaved", "abandoned", "error-then-reset", "pair", "windowed-first"}
+    nontrivial_tags = {"chain-interleaved", "abandoned", "error-then-reset", "pair", "windowed-first", "backtest-entry-point"}
     assumptions = [
         "aliasing through mutable default arguments, module-level state of third-party packages and the global NumPy "
         "RNG are runtime behaviours the model does not exhibit; the episode window (start index) is fixed",
@@ -82,6 +85,12 @@ class C10(Prop):
         else:
             case, grid, keys = es.gen_episode(rng, tier, markov=rng.random() < 0.2)
             case["ops"] = [["reset", None, 0]] + es.gen_actions(rng, case, len(grid) - 1)
+        if rng.random() < 0.2 and case["space"]["kind"] == "box":
+            # the alternative entry point: env.backtest(policy=...) returns the episode's track record (with the state
+            # history); what it returned must not change when later episodes are run on the same environment
+            case["state_save"] = True
+            return dict(kind="backtest", base=case, cut=rng.randint(1, max(1, len(case["ops"]) - 1)),
+                        then=rng.choice(["backtest-shorter", "abandoned-episode", "backtest-same"]))
         mode = rng.choice(["complete", "abandon", "error", "windowed-first", "windowed-first"])
         return dict(kind="replay", base=case, mode=mode, cut=rng.randint(1, max(1, len(case["ops"]) - 1)))
 
@@ -92,6 +101,8 @@ class C10(Prop):
         try:
             if case["kind"] == "pair":
                 return self.run_pair(case)
+            if case["kind"] == "backtest":
+                return self.run_backtest(case)
             return self.run_replay(case)
         finally:
             AbstractContract.now = saved
@@ -135,6 +146,80 @@ class C10(Prop):
             one = self.trace(s.obs[:len(first)])
             if one != second:
                 r.fail("second-episode-differs", theorem="reset_ignores_clock")
+        return r
+
+    def run_backtest(self, case):
+        import numpy as np
+        from tradingenv.policy import AbstractPolicy
+
+        base = case["base"]
+        actions = [np.array([float(Fraction(v)) for v in op[1]], dtype=float) for op in base["ops"] if op[0] == "step"]
+
+        class Scripted(AbstractPolicy):
+            def __init__(self, acts):
+                self.acts, self.i = list(acts), 0
+
+            def act(self, state):
+                a = self.acts[self.i] if self.i < len(self.acts) else self.action_space.null_action()
+                self.i += 1
+                return a
+
+        def dump(tr):
+            ents = []
+            for i in range(len(tr)):
+                e = tr[i]
+                ents.append((us(e.time), F(e.profit_on_idle_cash), F(e.context_pre.nlv), F(e.context_post.nlv),
+                             sorted((t.contract.symbol, F(t.quantity), F(t.acq_price)) for t in e.trades)))
+            hist = getattr(tr, "state_history", None)
+            def plain(v):
+                # numbers and arrays only (an observation may also carry the feature objects themselves)
+                if isinstance(v, dict):
+                    return sorted((str(k), plain(x)) for k, x in v.items() if isinstance(x, (np.ndarray, float, int, dict)))
+                return np.asarray(v, dtype=float).tolist()
+            hs = None if hist is None else sorted((us(k), repr(plain(v))[:300]) for k, v in hist.items())
+            return ents, hs
+
+        r = ImplRun()
+        r.tags.add("backtest-entry-point")
+        s = es.EnvSession(base, r)
+        if s.env is None:
+            return r
+        try:
+            tr1 = s.env.backtest(policy=Scripted(actions))
+        except Exception as e:  # noqa  (an episode the library ends with an error: the replay family covers those)
+            r.skipped = f"backtest raised {type(e).__name__}"
+            return r
+        d1 = dump(tr1)
+        if not d1[1]:
+            r.trace.append("empty state history")
+        # later activity on the same environment
+        try:
+            if case["then"] == "backtest-shorter":
+                s.env.backtest(policy=Scripted(actions[::-1]), episode_length=max(1, min(len(actions) - 1, case["cut"])))
+            elif case["then"] == "backtest-same":
+                s.env.backtest(policy=Scripted(actions))
+            else:
+                s.env.reset()
+                for a in actions[:case["cut"]][::-1]:
+                    s.env.step(a)
+        except Exception:  # noqa
+            pass
+        d1_after = dump(tr1)
+        if d1_after != d1:
+            what = "entries" if d1_after[0] != d1[0] else "state_history"
+            r.fail("returned-track-record-changed", what=what, then=case["then"],
+                   before=str(d1[1] if what == "state_history" else d1[0])[:200], after=str(d1_after[1] if what == "state_history" else d1_after[0])[:200],
+                   clause="an episode's ... track record are a function only of the configuration, the fold and the submitted actions")
+        # a freshly built identical environment
+        rf = ImplRun()
+        sf = es.EnvSession(base, rf)
+        try:
+            df = dump(sf.env.backtest(policy=Scripted(actions)))
+        except Exception as e:  # noqa
+            df = None
+        if df is not None and df != d1:
+            r.fail("replay-differs-from-fresh", mode="backtest", theorem="reset_ignores_clock")
+        r.lines = []
         return r
 
     def run_pair(self, case):
